@@ -31,7 +31,13 @@ CMPS = ['=', '==', '<=', '>=', '<', '>', '!=']
 
 def gen_names(rng, n):
     r = rng.random()
-    if r < 0.6: return 'x', ['x%d' % i for i in range(n)]
+    if r < 0.5: return 'x', ['x%d' % i for i in range(n)]
+    if r < 0.6 and n >= 2:
+        # an explicit list of names that LOOK indexed but sit at other positions (x1 first, x0 second, ...): positions follow the list, not the digits
+        names = ['%s%d' % (rng.choice('xy') if rng.random() < 0.3 else 'x', i) for i in range(n)]
+        if len(set(names)) < n: names = ['x%d' % i for i in range(n)]
+        rng.shuffle(names)
+        return list(names), names
     if r < 0.8: return 'y', ['y%d' % i for i in range(n)]
     # names (incl. prefixes of one another) that are not substrings of the function names / float literals used by the zoo;
     # names that ARE such substrings are exercised by the class 'named_collision'
